@@ -146,7 +146,7 @@ def gen_history(rng, length, readonly_safe=False, valkeys=None, funcs=3):
             if rng.random() < 0.7:
                 block.append(["rmeta", f, a, mk])
         if rng.random() < 0.4:  # the call gets another result: what was stored next to the old one is gone, the rest stays
-            block += [["rmeta", f, a, mk], ["memoize", f, a, rng.choice(["s0", "k3", "num"]), None]]
+            block += [["rmeta", f, a, mk], ["memoize", f, a, rng.choice(["s0", "k3", "num", "none", "none"]), None]]
         block += [["rmeta", f, a, mk], ["forget_call", f, a], ["rmeta", f, a, mk]]
         at = rng.randrange(len(ops) + 1)
         ops[at:at] = block
